@@ -121,6 +121,12 @@ int main(int argc, char *argv[]) {
     }
 #endif
 
+#if defined(PARMCB_VERIF) && defined(PARMCB_HAVE_TBB)
+    // verification hook: report the parallelism limit in effect right before the algorithm runs
+    std::cout << "VERIF tbb_max_allowed_parallelism="
+            << tbb::global_control::active_value(tbb::global_control::max_allowed_parallelism) << std::endl;
+#endif
+
     boost::timer::cpu_timer timer;
 
     std::list<std::list<edge_descriptor>> cycles;
